@@ -582,6 +582,53 @@ func schedSpace(tier string) mck.Space {
 			if ok, msg := linearizable(all, initial); !ok {
 				sched.Fail("cache:not-linearizable", msg)
 			}
+			// when everybody is done: a dump taken NOW must load back as exactly what a lookup sees now
+			// (a dump that re-uses what an earlier, overlapped dump computed would not)
+			finalFile := filepath.Join(tmpDirGet(), "final.json")
+			var derr error
+			if e.v9 {
+				derr = cc.N.Dump(finalFile)
+			} else {
+				derr = cc.I.Dump(finalFile)
+			}
+			if derr != nil {
+				sched.Fail("cache:dump-error", "final dump: "+derr.Error())
+			}
+			specsOf := func(c2 *flowh.Caches, k key) int {
+				var ids, lens []uint16
+				if e.v9 {
+					tr, ok := netflow9.VerifRetrieve(c2.N, k.id, append(net.IP{}, k.addr...))
+					if !ok {
+						return -1
+					}
+					for _, f := range tr.FieldSpecifiers {
+						ids, lens = append(ids, f.ElementID), append(lens, f.Length)
+					}
+				} else {
+					tr, ok := ipfix.VerifRetrieve(c2.I, k.id, append(net.IP{}, k.addr...))
+					if !ok {
+						return -1
+					}
+					for _, f := range tr.FieldSpecifiers {
+						ids, lens = append(ids, f.ElementID), append(lens, f.Length)
+					}
+				}
+				return e.classifySpecs(ids, lens)
+			}
+			var loaded *flowh.Caches
+			if e.v9 {
+				loaded = &flowh.Caches{N: netflow9.GetCache(finalFile)}
+			} else {
+				loaded = &flowh.Caches{I: ipfix.GetCache(finalFile)}
+			}
+			for ki, k := range e.keys {
+				if k.addr == nil {
+					continue
+				}
+				if a, b := specsOf(cc, k), specsOf(loaded, k); a != b {
+					sched.Fail("cache:final-dump-differs-from-cache", fmt.Sprintf("after all threads have finished, key %d: a lookup sees version %d, a dump taken now loads back as version %d", ki, a, b))
+				}
+			}
 		}
 		outcomes := map[string]int{}
 		reported := map[string]bool{}
